@@ -427,3 +427,39 @@ def single_signer_verify(suite_name, pk_bytes, msg, sig_bytes):
     if suite_name == "ed448":
         return ed448_verify(pk_bytes, msg, sig_bytes) and s.verify(pk_bytes, msg, sig_bytes)
     return s.verify(pk_bytes, msg, sig_bytes)
+
+
+# ---------------------------------------------------------------- RFC 8032 signing (reference signers for C02)
+def ed25519_sign(seed, msg):
+    g = cv.ED25519
+    h = hashlib.sha512(seed).digest()
+    a = int.from_bytes(h[:32], "little")
+    a &= (1 << 254) - 8
+    a |= 1 << 254
+    prefix = h[32:]
+    A = g.mul_raw(g.G, a)
+    Ab = g.encode(A)
+    r = int.from_bytes(hashlib.sha512(prefix + msg).digest(), "little") % g.n
+    Rb = g.encode(g.mul_raw(g.G, r))
+    k = int.from_bytes(hashlib.sha512(Rb + Ab + msg).digest(), "little") % g.n
+    S = (r + k * a) % g.n
+    return Ab, Rb + S.to_bytes(32, "little")
+
+
+def ed448_sign(seed, msg, context=b""):
+    g = cv.ED448
+    h = hashlib.shake_256(seed).digest(114)
+    ab = bytearray(h[:57])
+    ab[0] &= 0xFC
+    ab[55] |= 0x80
+    ab[56] = 0
+    a = int.from_bytes(ab, "little")
+    prefix = h[57:]
+    dom = b"SigEd448" + bytes([0, len(context)]) + context
+    A = g.mul_raw(g.G, a)
+    Ab = g.encode(A)
+    r = int.from_bytes(hashlib.shake_256(dom + prefix + msg).digest(114), "little") % g.n
+    Rb = g.encode(g.mul_raw(g.G, r))
+    k = int.from_bytes(hashlib.shake_256(dom + Rb + Ab + msg).digest(114), "little") % g.n
+    S = (r + k * a) % g.n
+    return Ab, Rb + S.to_bytes(57, "little")
